@@ -41,7 +41,7 @@ META = {
     'shrink_budget': 300,
 }
 
-KINDS = ['section', 'subsection', 'equation', 'item', 'figure', 'table', 'theorem']
+KINDS = ['section', 'subsection', 'equation', 'item', 'item2', 'figure', 'table', 'theorem', 'lemma']
 
 
 def generate(seed, tier):
@@ -141,7 +141,8 @@ def run_api(events):
 
 
 def _str(v):
-    return None if v is None else str(v)
+    # plasTeX's Text is a str subclass whose __str__ returns itself (with its document attached): build an exact str
+    return None if v is None else ''.join(str(v))
 
 
 def prepare():
@@ -163,7 +164,7 @@ def _ref_tex(x):
 
 
 def compile_doc(events):
-    lines = ['\\documentclass{article}', '\\newtheorem{thm}{Theorem}', '\\begin{document}']
+    lines = ['\\documentclass{article}', '\\newtheorem{thm}{Theorem}', '\\newtheorem{lem}[thm]{Lemma}', '\\begin{document}']
     for e in events:
         if e[0] == 'REF':
             lines.append(_ref_tex(e[1]))
@@ -185,6 +186,12 @@ def compile_doc(events):
             lines.append(post)
         elif k == 'item':
             lines.append('\\begin{enumerate}\\item %s %s %s %s\\end{enumerate}' % (pre, lab, m, post))
+        elif k == 'item2':
+            # the labelled item is the second of its list and follows a nested list
+            lines.append('\\begin{enumerate}\\item first\\begin{enumerate}\\item inner\\item inner2\\end{enumerate}'
+                         '\\item %s %s %s %s\\item last\\end{enumerate}' % (pre, lab, m, post))
+        elif k == 'lemma':
+            lines.append('\\begin{lem}%s %s %s %s\\end{lem}' % (lab, pre, m, post))
         elif k in ('figure', 'table'):
             lines.append('\\begin{%s} %s \\caption{C%s}%s %s\\end{%s}' % (k, pre, m, lab, post, k))
         elif k == 'theorem':
@@ -209,7 +216,8 @@ def _all_nodes(node, out):
 
 
 EXPECT_NODE = {'section': ('section',), 'subsection': ('subsection',), 'equation': ('equation',), 'item': ('item',),
-               'figure': ('caption',), 'table': ('caption',), 'theorem': ('thm', 'thmenv')}
+               'figure': ('caption',), 'table': ('caption',), 'theorem': ('thm', 'thmenv'), 'item2': ('item',),
+               'lemma': ('lem', 'thmenv')}
 
 
 def run_doc(events, objs):
@@ -233,7 +241,7 @@ def run_doc(events, objs):
                             pass
                 except Exception:
                     txt = ''
-                if ('T' + o['m'] in txt) or ('C' + o['m'] in txt) or (o['kind'] in ('equation', 'item', 'theorem') and o['m'] in txt.split()) \
+                if ('T' + o['m'] in txt) or ('C' + o['m'] in txt) or (o['kind'] in ('equation', 'item', 'item2', 'theorem', 'lemma') and o['m'] in txt.split()) \
                         or (o['kind'] == 'equation' and o['m'] in txt):
                     cands.append(n)
         objnode[o['m']] = cands
@@ -254,12 +262,12 @@ def run_doc(events, objs):
                     tm = m
             num = None
             try:
-                num = str(t.ref.textContent) if getattr(t, 'ref', None) is not None else None
+                num = _str(t.ref.textContent) if getattr(t, 'ref', None) is not None else None
             except Exception:
                 num = None
             out[mk] = {'target_marker': tm, 'target_id': _str(getattr(t, 'id', None)),
                        'has_parent': getattr(t, 'parentNode', None) is not None,
-                       'is_object': tm is not None, 'number': num, 'target_node': getattr(t, 'nodeName', None)}
+                       'is_object': tm is not None, 'number': num, 'target_node': _str(getattr(t, 'nodeName', None))}
     ids = {}
     for m, cands in objnode.items():
         ids[m] = [_str(getattr(c, 'id', None)) for c in cands]
@@ -340,11 +348,11 @@ def _probes(ev, objs, refs, info):
                 seen_labels.add(o['label'])
                 if pending.get(o['label'], 0) >= 2:
                     info['two_pending_same_label'] = 1
-                if o['kind'] == 'item':
+                if o['kind'] in ('item', 'item2'):
                     info['label_on_item'] = 1
                 if o['kind'] in ('figure', 'table'):
                     info['label_on_caption'] = 1
-                if o['kind'] == 'theorem':
+                if o['kind'] in ('theorem', 'lemma'):
                     info['label_on_theorem'] = 1
             else:
                 info['unlabelled_between'] = 1
@@ -381,9 +389,11 @@ def expected_numbers(objs):
     out = {}
     for o in objs:
         k = o['kind']
-        if k == 'item':
-            out[o['m']] = '1'
+        if k in ('item', 'item2'):
+            out[o['m']] = '1' if k == 'item' else '2'
             continue
+        if k == 'lemma':
+            k = 'theorem'           # \newtheorem{lem}[thm]{Lemma}: shares the theorem counter
         n[k] += 1
         if k == 'section':
             n['subsection'] = 0
